@@ -187,13 +187,18 @@ CLAIMS = {
         category="other",
         text="Hybrid. Proved (pyvc): PortDir.flipped swaps INPUT/OUTPUT and fixes INOUT/NONE; involution lemma over the "
              "contract; export_port_dir total; BundleInstance.__copy__ keeps every public field and flipped() returns a "
-             "copy with the flag negated, the original untouched (two flips cancel). Bounded-exhaustive (labelled): "
+             "copy with the flag negated, the original untouched (two flips cancel); the direction rule of "
+             "flatten_bundle_inst_helper for one arbitrary leaf (port-ness, declared direction swapped iff the flip "
+             "state, role -> OUTPUT/INPUT/undirected) and the recursion step (same port-ness, flip state XOR the "
+             "sub-instance's flag), started by flatten_bundle_inst from the instance's own flags. Bounded-exhaustive "
+             "(labelled): "
              "flattened names, widths, visibility and directions of ~20,000 (quick) bundle instantiations - every leaf kind at depth 1-3 with flips at every "
              "level by constructor flag and flipped(), roles, port vs internal, plus seeded random trees - against a "
              "reference of the documented rule.",
         design_ref="DESIGN.md section 4 C10",
         technique="pyvc proof of the direction flip + bounded-exhaustive run-time check of the flattening rule",
-        note=TB + "; flatten_bundle_inst_helper / replace_bundle_conn are not under a proved contract"),
+        note=TB + "; the induction over the bundle tree is argued, not machine-checked; replace_bundle_conn and the naming "
+             "of flattened members are bounded only"),
     "C13": dict(
         category="other",
         text="Hybrid. Proved (pyvc): export_prefix is total over the 21 prefixes and name-preserving; "
